@@ -159,9 +159,17 @@ def check_structure(lang, lg, res, count=True):
 def gen_illformed(rng, spec):
     """one ill-formed variant of a well-formed spec: (kind, spec) or None"""
     s = copy.deepcopy(spec)
-    kinds = ['unknown-super', 'unknown-assoc-end', 'unknown-field', 'unknown-step']
+    kinds = ['unknown-super', 'unknown-assoc-end', 'unknown-field', 'unknown-step', 'removed-asset']
     rng.shuffle(kinds)
     for kind in kinds:
+        if kind == 'removed-asset':
+            # an asset that others extend or that an association ends in disappears from the specification
+            used = [a['superAsset'] for a in s['assets'] if a['superAsset']] + [x[k] for x in s['associations'] for k in ('leftAsset', 'rightAsset')]
+            if used:
+                gone = rng.choice(sorted(set(used)))
+                s['assets'] = [a for a in s['assets'] if a['name'] != gone]
+                return kind, s
+            continue
         if kind == 'unknown-super':
             a = rng.choice(s['assets'])
             a['superAsset'] = 'NoSuchAsset'
@@ -246,7 +254,7 @@ def _check_case(case, res, count=True):
                 res.count('illformed-raised')
             continue
         return ('langgraph.illformed:%s-accepted' % kind, 'ill-formed language (%s) was accepted without any error' % kind)
-    for kind, bad in case.get('illformed', [])[:1]:
+    for kind, bad in sorted(case.get('illformed', []), key=lambda kb: kb[0] != 'removed-asset')[:1]:
         # the same through regenerate_graph(): the graph was built from the well-formed specification, the dict it
         # holds is then edited into the ill-formed variant
         given = copy.deepcopy(case['spec'])
